@@ -45,7 +45,9 @@ func uniformRandomTensor(l, u float64, dims []int) (t *CPUTensor) {
 	t.dims = make([]int, len(dims))
 	copy(t.dims, dims)
 	t.initWith(func() any {
-		return distuv.Uniform{Min: l, Max: u}.Rand()
+		// convex combination of the bounds: the width u-l may exceed the float64 range
+		r := distuv.Uniform{Min: 0, Max: 1}.Rand()
+		return l*(1-r) + u*r
 	})
 
 	return t
